@@ -40,8 +40,8 @@ from mxmc.session import (reset_world, describe_model, held_values, graph_state,
 PROPERTY = "C19"
 LEVEL = "model_checking"
 ASSUMPTIONS = [
-    "histories start from an empty session; at most 3 models are ever created per history "
-    "(open or closed) - a failed read counts as a creation",
+    "histories start from an empty session; at most max_models (3, one thorough phase 4) models are ever "
+    "created per history (open or closed) - a failed read counts as a creation",
     "alphabet as in the module docstring; model names X, Y, X_BAK1 and auto names; one saved model "
     "(name X, space S with r, f, k and one input) plus corrupted copies of its tree",
     "a query through a cross-model reference is an operation on every model linked to the queried "
@@ -57,17 +57,23 @@ ASSUMPTIONS = [
 NAMES = ["X", "Y", "X_BAK1"]
 SAVED_NAME = "X"
 
+RENAMES = [["X", False], ["X", True], ["Y", False], ["Y", True], ["X_BAK1", False], ["X_BAK1", True]]
+
+# a tier is a list of phases; every phase is an exhaustive BFS of its own alphabet to its own depth
 BOUNDS = {
-    "quick": {"depth": 4, "max_models": 3, "edits": ["populate", "ref", "value"],
-              "reads": [["good", None], ["good", "Y"], ["bad", None], ["bad0", None]],
-              "rename_to": [["X", False], ["X", True], ["Y", False], ["Y", True],
-                            ["X_BAK1", False], ["X_BAK1", True]],
-              "prefix": 2},
-    "thorough": {"depth": 5, "max_models": 3, "edits": ["populate", "ref", "value", "cells", "space"],
-                 "reads": [["good", None], ["good", "Y"], ["bad", None], ["bad0", None], ["bad", "Y"]],
-                 "rename_to": [["X", False], ["X", True], ["Y", False], ["Y", True],
-                               ["X_BAK1", False], ["X_BAK1", True]],
-                 "prefix": 3},
+    "quick": [
+        {"id": "base-d4", "depth": 4, "max_models": 3, "edits": ["populate", "ref", "value"],
+         "reads": [["good", None], ["good", "Y"], ["bad", None], ["bad0", None]],
+         "rename_to": RENAMES, "prefix": 2},
+    ],
+    "thorough": [
+        {"id": "base-d5", "depth": 5, "max_models": 3, "edits": ["populate", "ref", "value"],
+         "reads": [["good", None], ["good", "Y"], ["bad", None], ["bad0", None]],
+         "rename_to": RENAMES, "prefix": 3},
+        {"id": "wide-d4", "depth": 4, "max_models": 4, "edits": ["populate", "ref", "value", "cells", "space"],
+         "reads": [["good", None], ["good", "Y"], ["bad", None], ["bad0", None], ["bad", "Y"]],
+         "rename_to": RENAMES, "prefix": 2},
+    ],
 }
 
 
@@ -601,38 +607,39 @@ def tally(op, obs, counts, last=None):
 
 
 def work_items(tier, seed):
-    """All realisable histories of b["prefix"] ops (shorter ones where a history is terminal)."""
-    b = BOUNDS[tier]
+    """Per phase: all realisable histories of b["prefix"] ops (shorter ones where a history is terminal)."""
     items = []
     with Scratch() as sc:
         try:
-            level = [[]]
-            for d in range(b["prefix"]):
-                nxt = []
-                for h in level:
-                    w, vs, obss, _ = replay(h, sc, b, check="all")
-                    ops = [] if vs else alphabet(w, b)
-                    if not ops:
-                        if h:
-                            items.append({"prefix": h})      # terminal (violating / no applicable op)
-                        continue
-                    nxt.extend(h + [op] for op in ops)
-                level = nxt
-            items.extend({"prefix": h} for h in level)
+            for ph, b in enumerate(BOUNDS[tier]):
+                level = [[]]
+                for d in range(b["prefix"]):
+                    nxt = []
+                    for h in level:
+                        w, vs, obss, _ = replay(h, sc, b, check="all")
+                        ops = [] if vs else alphabet(w, b)
+                        if not ops:
+                            if h:
+                                items.append({"phase": ph, "prefix": h})   # terminal
+                            continue
+                        nxt.extend(h + [op] for op in ops)
+                    level = nxt
+                items.extend({"phase": ph, "prefix": h} for h in level)
         finally:
             reset_world()
+    items.sort(key=lambda it: -(BOUNDS[tier][it["phase"]]["depth"] - len(it["prefix"])))
     return items
 
 
 def run_item(item, tier):
-    b = BOUNDS[tier]
+    b = BOUNDS[tier][item["phase"]]
     counts = {}
     outcomes = set()
     samples = []
+    extra = {}
     with Scratch() as sc:
         try:
             viols, states, vkeys = explore(item["prefix"], b["depth"], sc, b, True, counts, outcomes, samples)
-            extra = {}
             if tier == "thorough" or os.environ.get("MXMC_AUDIT"):
                 c2 = {}
                 v_m, s_m, k_m = explore(item["prefix"], b["depth"] - 1, sc, b, True, c2, set(), None)
@@ -647,6 +654,8 @@ def run_item(item, tier):
                     extra["canon_audit_mismatch_items"] = [item]
         finally:
             reset_world()
+    for k in ("states", "transitions"):
+        counts["%s[%s]" % (k, b["id"])] = counts.get(k, 0)
     res = {"counts": counts, "outcomes": sorted(outcomes), "samples": samples, "violations": viols}
     if extra:
         res["extra"] = extra
@@ -757,32 +766,37 @@ def script(case):
 # --------------------------------------------------------------------------------------
 # evidence
 
+def alphabet_size(b):
+    return 4 + len(b["reads"]) + b["max_models"] * (len(b["rename_to"]) + 1 + len(b["edits"])
+                                                     + (b["max_models"] - 1) + 1)
+
+
 def coverage(agg, tier):
     c = agg["counts"]
-    b = BOUNDS[tier]
-    nalpha = 4 + len(b["reads"]) + b["max_models"] * (len(b["rename_to"]) + 1 + len(b["edits"])
-                                                       + (b["max_models"] - 1) + 1)
+    phases = BOUNDS[tier]
     cov = {
         "states": c.get("states", 0),
         "transitions": c.get("transitions", 0),
         "traces_validated_against_impl": c.get("transitions", 0),
-        "depth": b["depth"],
+        "depth": max(b["depth"] for b in phases),
         "roots": agg["items"],
-        "alphabet_size": nalpha,
+        "alphabet_size": max(alphabet_size(b) for b in phases),
         "exhaustive": True,
         "caps_hit": [],
-        "bounds": b,
+        "phases": [dict(b, alphabet_size=alphabet_size(b), states=c.get("states[%s]" % b["id"], 0),
+                        transitions=c.get("transitions[%s]" % b["id"], 0)) for b in phases],
         "ops_raised": c.get("ops_raised", 0),
         "failed_reads": c.get("failed_reads", 0),
         "merged_transitions": c.get("merged", 0),
-        "rule": "BFS over all histories of <= depth ops (alphabet restricted per state to applicable ops) "
-                "from the empty session; work items = all applicable 2-op prefixes, each explored to the "
-                "full depth with its own seen-set (states = sum over items of distinct canonical states); "
-                "every transition is an execution of the real modelx from a fresh world",
+        "rule": "per phase: BFS over all histories of <= depth ops (alphabet restricted per state to applicable "
+                "ops, at most max_models creations per history) from the empty session; work items = all "
+                "applicable prefixes of `prefix` ops, each explored to the full depth with its own seen-set "
+                "(states = sum over items of distinct canonical states); every transition is an execution of "
+                "the real modelx from a fresh world",
     }
     if "audit_items" in c:
         cov["canon_audit"] = "ok" if c.get("audit_mismatch", 0) == 0 else "mismatch"
-        cov["canon_audit_depth"] = b["depth"] - 1
+        cov["canon_audit_depth"] = "depth-1 of every phase"
         cov["canon_audit_transitions_unmerged"] = c.get("audit_transitions_unmerged", 0)
         cov["canon_audit_transitions_merged"] = c.get("audit_transitions_merged", 0)
     return cov
